@@ -79,9 +79,6 @@ def resolveBlockL (p : Bool) (t : SymTable) (m : BlockMsg) : Outcome Block :=
   (mapMOutcome (resolveCheckL p t) m.checks).bind fun checks =>
   .ok { facts := insertAll [] facts, rules := rules, checks := checks }
 
-/-- `symbols.Extend(block.symbols)`: insert each, skipping those already present. -/
-def extendTable (t : SymTable) (new : List Bytes) : SymTable := new.foldl (fun acc s => (symInsert acc s).1) t
-
 /-- The token's cumulative table (builder.go:151-210), then every block resolved through it. -/
 def resolveTokenL (p : Bool) (msgs : List BlockMsg) : Outcome (List Block) :=
   let table := msgs.foldl (fun acc m => extendTable acc m.symbols) []
